@@ -27,6 +27,17 @@
        the contract is evaluated on them and the model must then write the real
        file byte for byte.
 
+    naivebwt <hex T>
+        -> <idx> <hex L>      `Model.Compress.naiveBwt T` (rotation sort; proved:
+                               `Lemmas.BwtInverse.naiveBwt_ok`, `ibwt_naiveBwt`)
+    bwtok <hex T> <idx> <hex L>
+        -> 1 | 0               `decide (Model.Compress.BwtOK T L idx)`: the oracle's
+                               inverse BWT maps (L, idx) to T and L has no foreign byte
+                               — the BWT hypothesis of `Props.C01.Roundtrip.roundtrip`
+    bwtcheck <hex T> <idx> <hex L>
+        -> <model idx> <hex model L> <bwtok of the GIVEN (L, idx): 1 | 0>
+       (checks/w24_bwt.py: the real divbwt() against the model and the contract)
+
   Before anything is written the contract `Model.Compress.ChoicesOK` is
   evaluated on every block (it is decidable); `choices-fail i` names the first
   block (0-based) whose choice violates it — the theorems then say nothing.
@@ -133,6 +144,21 @@ def handle (cmd : String) (args : List String) : Option String :=
       | some level, some seq, some cap, some granul, some d, some cs =>
         doCompressWith level cap granul seq d cs
       | _, _, _, _, _, _ => "bad-arg")
+  | "naivebwt", [h] =>
+    some (match hexDecode h with
+      | some t => let bw := naiveBwt t; toString bw.2 ++ " " ++ hexEncode bw.1
+      | none => "bad-arg")
+  | "bwtok", [h, i, l] =>
+    some (match hexDecode h, i.toNat?, hexDecode l with
+      | some t, some idx, some L => if decide (BwtOK t L idx) then "1" else "0"
+      | _, _, _ => "bad-arg")
+  | "bwtcheck", [h, i, l] =>
+    some (match hexDecode h, i.toNat?, hexDecode l with
+      | some t, some idx, some L =>
+        let bw := naiveBwt t
+        toString bw.2 ++ " " ++ hexEncode bw.1 ++ " " ++
+          (if decide (BwtOK t L idx) then "1" else "0")
+      | _, _, _ => "bad-arg")
   | _, _ => none
 
 end Driver.CmdCompress
